@@ -1,8 +1,8 @@
 /-
-  Scc.RV.RefTr — the translation `trHeap` of the word parts of an abstract heap (RefHeapDefs.lean)
-  commutes with every heap operation of the abstract machine (`get`, `remove`, `set`, `share`, `shareAll`,
-  `erase`, allocation, the abstract `load`): the operations look at ids, counts, kinds and pointer parts
-  only.
+  Scc.RV.RefTr — the translation `trHeap` of the word parts of an abstract heap (RefDefs.lean) commutes with
+  every heap operation of the abstract machine (`get`, `remove`, `set`, `share`, `shareAll`, `erase`,
+  allocation, the abstract `load`): the operations look at ids, counts, kinds and pointer parts only, and the
+  translation of an object depends on its id and its fields only.
 -/
 import Scc.RV.RefDefs
 import Scc.Heap.RefineLoad
@@ -15,50 +15,103 @@ namespace Scc.RV.Ref
 open Scc.AxCut Scc.Backend Scc.Backend.Abs Scc.Backend.Sim Scc.RV
 open Scc.Heap.Refine (loadAbs)
 
-variable {α : Abs.Word → Abs.Word}
+variable {τ : Nat → Nat → Abs.Word}
 
-theorem trO_count (o : Obj) : (trO α o).count = o.count := rfl
+theorem trF_chi (m : Abs.Word) (f : Abs.Field) : (trF m f).chi = f.chi := rfl
+theorem trF_ptr (m : Abs.Word) (f : Abs.Field) : (trF m f).ptr = f.ptr := rfl
 
-theorem trO_fields (o : Obj) : (trO α o).fields = o.fields.map (trF α) := rfl
+theorem trFieldsP_length (mw : Nat → Abs.Word) : ∀ (k : Nat) (fs : List Abs.Field),
+    (trFieldsP mw k fs).length = fs.length
+  | _, [] => rfl
+  | k, f :: fs => by simp [trFieldsP, trFieldsP_length mw (k + 1) fs]
 
-theorem trF_chi (f : Abs.Field) : (trF α f).chi = f.chi := rfl
-theorem trF_ptr (f : Abs.Field) : (trF α f).ptr = f.ptr := rfl
+theorem trFieldsP_getElem (mw : Nat → Abs.Word) : ∀ (k : Nat) (fs : List Abs.Field) (j : Nat)
+    (hj : j < fs.length), (trFieldsP mw k fs)[j]'(by rw [trFieldsP_length]; exact hj) = trF (mw (k + j)) fs[j]
+  | k, f :: fs, 0, _ => by simp [trFieldsP]
+  | k, f :: fs, j + 1, hj => by
+    simp only [trFieldsP, List.getElem_cons_succ]
+    rw [trFieldsP_getElem mw (k + 1) fs j (by simpa using hj)]
+    congr 2; omega
 
-theorem trO_children (o : Obj) : (trO α o).children = o.children := by
+theorem trFieldsP_chi (mw : Nat → Abs.Word) : ∀ (k : Nat) (fs : List Abs.Field),
+    (trFieldsP mw k fs).map (·.chi) = fs.map (·.chi)
+  | _, [] => rfl
+  | k, f :: fs => by simp [trFieldsP, trFieldsP_chi mw (k + 1) fs, trF_chi]
+
+theorem trFieldsP_congr {mw mw' : Nat → Abs.Word} : ∀ (k : Nat) (fs : List Abs.Field),
+    (∀ j, j < fs.length → mw (k + j) = mw' (k + j)) → trFieldsP mw k fs = trFieldsP mw' k fs
+  | _, [], _ => rfl
+  | k, f :: fs, h => by
+    have h0 : mw k = mw' k := by
+      have := h 0 (by simp)
+      simpa using this
+    have hrest : ∀ j, j < fs.length → mw (k + 1 + j) = mw' (k + 1 + j) := by
+      intro j hj
+      have := h (j + 1) (by simp; omega)
+      rw [show k + (j + 1) = k + 1 + j by omega] at this
+      exact this
+    have ih := trFieldsP_congr (mw := mw) (mw' := mw') (k + 1) fs hrest
+    simp only [trFieldsP, h0, ih]
+
+theorem filterMap_trFieldsP {β : Type} (g : Chi → Abs.Word → Option β) (mw : Nat → Abs.Word) :
+    ∀ (k : Nat) (fs : List Abs.Field),
+    (trFieldsP mw k fs).filterMap (fun f => g f.chi f.ptr) = fs.filterMap (fun f => g f.chi f.ptr)
+  | _, [] => rfl
+  | k, f :: fs => by
+    simp only [trFieldsP, List.filterMap_cons, trF_chi, trF_ptr, filterMap_trFieldsP g mw (k + 1) fs]
+
+theorem trFieldsP_children (mw : Nat → Abs.Word) (c : Nat) (k : Nat) (fs : List Abs.Field) :
+    Obj.children ⟨c, trFieldsP mw k fs⟩ = Obj.children ⟨c, fs⟩ := by
   unfold Obj.children
-  rw [trO_fields, List.filterMap_map]
-  rfl
+  exact filterMap_trFieldsP (fun chi ptr => if chi != .ext && ptr != 0 then some ptr.toNat else none) mw k fs
 
-theorem trO_with_count (o : Obj) (c : Nat) : trO α { o with count := c } = { trO α o with count := c } := rfl
+theorem trO_count (id : Nat) (o : Obj) : (trO τ id o).count = o.count := rfl
 
-theorem trHeap_nil : trHeap α [] = [] := rfl
+theorem trO_fields (id : Nat) (o : Obj) : (trO τ id o).fields = trFieldsP (τ id) 0 o.fields := rfl
 
-theorem trHeap_cons (id : Nat) (o : Obj) (h : Heap) : trHeap α ((id, o) :: h) = (id, trO α o) :: trHeap α h := rfl
+theorem trO_fields_length (id : Nat) (o : Obj) : (trO τ id o).fields.length = o.fields.length :=
+  trFieldsP_length _ _ _
 
-theorem trHeap_get (h : Heap) (id : Nat) : (trHeap α h).get id = (h.get id).map (trO α) := by
+theorem trO_chi (id : Nat) (o : Obj) : (trO τ id o).fields.map (·.chi) = o.fields.map (·.chi) :=
+  trFieldsP_chi _ _ _
+
+theorem trO_children (id : Nat) (o : Obj) : (trO τ id o).children = o.children :=
+  trFieldsP_children (τ id) o.count 0 o.fields
+
+theorem trO_with_count (id : Nat) (o : Obj) (c : Nat) :
+    trO τ id { o with count := c } = { trO τ id o with count := c } := rfl
+
+theorem trHeap_nil : trHeap τ [] = [] := rfl
+
+theorem trHeap_cons (id : Nat) (o : Obj) (h : Heap) :
+    trHeap τ ((id, o) :: h) = (id, trO τ id o) :: trHeap τ h := rfl
+
+theorem trHeap_get (h : Heap) (id : Nat) : (trHeap τ h).get id = (h.get id).map (trO τ id) := by
   induction h with
   | nil => rfl
   | cons e h ih =>
     unfold Heap.get at ih ⊢
-    rw [trHeap_cons]
+    rw [show e :: h = (e.1, e.2) :: h from rfl, trHeap_cons]
     simp only [List.find?_cons]
     by_cases he : (e.1 == id) = true
-    · simp [he]
+    · have : e.1 = id := by simpa using he
+      simp [he, this]
     · simp only [he]
       exact ih
 
-theorem trHeap_remove (h : Heap) (id : Nat) : (trHeap α h).remove id = trHeap α (h.remove id) := by
+theorem trHeap_remove (h : Heap) (id : Nat) : (trHeap τ h).remove id = trHeap τ (h.remove id) := by
   unfold Heap.remove trHeap
   rw [List.filter_map]
   rfl
 
-theorem trHeap_set (h : Heap) (id : Nat) (o : Obj) : (trHeap α h).set id (trO α o) = trHeap α (h.set id o) := by
+theorem trHeap_set (h : Heap) (id : Nat) (o : Obj) :
+    (trHeap τ h).set id (trO τ id o) = trHeap τ (h.set id o) := by
   unfold Heap.set
   rw [trHeap_remove]
   rfl
 
 theorem trHeap_share {h h' : Heap} {ref : Word} {k : Nat} (hs : h.share ref k = .ok h') :
-    (trHeap α h).share ref k = .ok (trHeap α h') := by
+    (trHeap τ h).share ref k = .ok (trHeap τ h') := by
   unfold Heap.share at hs ⊢
   by_cases h0 : (ref == 0) = true
   · rw [if_pos h0] at hs ⊢
@@ -75,7 +128,7 @@ theorem trHeap_share {h h' : Heap} {ref : Word} {k : Nat} (hs : h.share ref k = 
       rfl
 
 theorem trHeap_shareAll : ∀ (ids : List Nat) {h h' : Heap}, h.shareAll ids = .ok h' →
-    (trHeap α h).shareAll ids = .ok (trHeap α h')
+    (trHeap τ h).shareAll ids = .ok (trHeap τ h')
   | [], h, h', hs => by
     simp only [Heap.shareAll] at hs ⊢
     injection hs with hs; rw [hs]
@@ -88,16 +141,16 @@ theorem trHeap_shareAll : ∀ (ids : List Nat) {h h' : Heap}, h.shareAll ids = .
       rw [trHeap_share h1]
       exact trHeap_shareAll ids hs
 
-theorem trHeap_totalFields (h : Heap) : (trHeap α h).totalFields = h.totalFields := by
+theorem trHeap_totalFields (h : Heap) : (trHeap τ h).totalFields = h.totalFields := by
   unfold Heap.totalFields trHeap
   rw [List.map_map]
   congr 1
   apply List.map_congr_left
   intro e _
-  simp [trO]
+  simp [trO, trFieldsP_length]
 
 theorem trHeap_eraseLoop : ∀ (fuel : Nat) (work : List Nat) {h h' : Heap},
-    Heap.eraseLoop fuel work h = .ok h' → Heap.eraseLoop fuel work (trHeap α h) = .ok (trHeap α h')
+    Heap.eraseLoop fuel work h = .ok h' → Heap.eraseLoop fuel work (trHeap τ h) = .ok (trHeap τ h')
   | 0, [], h, h', hs => by
     simp only [Heap.eraseLoop] at hs ⊢
     injection hs with hs; rw [hs]
@@ -124,7 +177,7 @@ theorem trHeap_eraseLoop : ∀ (fuel : Nat) (work : List Nat) {h h' : Heap},
         exact this
 
 theorem trHeap_erase {h h' : Heap} {ref : Word} (hs : h.erase ref = .ok h') :
-    (trHeap α h).erase ref = .ok (trHeap α h') := by
+    (trHeap τ h).erase ref = .ok (trHeap τ h') := by
   unfold Heap.erase at hs ⊢
   by_cases h0 : (ref == 0) = true
   · rw [if_pos h0] at hs ⊢
@@ -134,7 +187,7 @@ theorem trHeap_erase {h h' : Heap} {ref : Word} (hs : h.erase ref = .ok h') :
     exact trHeap_eraseLoop _ _ hs
 
 theorem trHeap_loadAbs {h h' : Heap} {id : Nat} {o : Obj} (hs : loadAbs h id o = .ok h') :
-    loadAbs (trHeap α h) id (trO α o) = .ok (trHeap α h') := by
+    loadAbs (trHeap τ h) id (trO τ id o) = .ok (trHeap τ h') := by
   unfold loadAbs at hs ⊢
   rw [trO_count, trO_children]
   by_cases hc : (o.count == 0) = true
@@ -142,49 +195,22 @@ theorem trHeap_loadAbs {h h' : Heap} {id : Nat} {o : Obj} (hs : loadAbs h id o =
     injection hs with hs
     rw [← hs, trHeap_remove]
   · rw [if_neg hc] at hs ⊢
-    have := trHeap_shareAll (α := α) _ hs
+    have := trHeap_shareAll (τ := τ) _ hs
     rw [← trHeap_set] at this
     exact this
 
-/-! ## what does not see the translation -/
-
-theorem trHeap_ids (h : Heap) : (trHeap α h).map (·.1) = h.map (·.1) := by
-  unfold trHeap; rw [List.map_map]; rfl
-
-theorem trHeap_mem {h : Heap} {e : Nat × Obj} (he : e ∈ trHeap α h) : ∃ e0 ∈ h, e = (e0.1, trO α e0.2) := by
-  unfold trHeap at he
-  obtain ⟨e0, h0, rfl⟩ := List.mem_map.1 he
-  exact ⟨e0, h0, rfl⟩
-
-theorem mem_trHeap {h : Heap} {e : Nat × Obj} (he : e ∈ h) : (e.1, trO α e.2) ∈ trHeap α h :=
-  List.mem_map.2 ⟨e, he, rfl⟩
-
-theorem trHeap_refCount (h : Heap) (rs : List Nat) (id : Nat) :
-    refCount (trHeap α h) rs id = refCount h rs id := by
-  unfold refCount trHeap
-  rw [List.map_map]
-  congr 2
+/-- the translation of the old objects does not see a change of `τ` at other ids -/
+theorem trHeap_congr {τ τ' : Nat → Nat → Abs.Word} (h : Heap)
+    (hτ : ∀ e ∈ h, ∀ j, j < e.2.fields.length → τ e.1 j = τ' e.1 j) : trHeap τ h = trHeap τ' h := by
+  unfold trHeap
   apply List.map_congr_left
-  intro e _
-  show List.count id (trO α e.2).children = _
-  rw [trO_children]
+  intro e he
+  simp only [trO]
+  rw [trFieldsP_congr 0 e.2.fields (fun j hj => by simpa using hτ e he j hj)]
 
-theorem heapOK_trHeap {h : Heap} {rs : List Nat} {next : Nat} (H : HeapOK h rs next) :
-    HeapOK (trHeap α h) rs next := by
-  refine ⟨H.pos, by rw [trHeap_ids]; exact H.nodup, ?_, ?_, ?_⟩
-  · intro e he
-    obtain ⟨e0, h0, rfl⟩ := trHeap_mem he
-    exact H.ids e0 h0
-  · intro e he
-    obtain ⟨e0, h0, rfl⟩ := trHeap_mem he
-    rw [trHeap_refCount]
-    exact H.counts e0 h0
-  · intro id hid
-    rw [trHeap_refCount] at hid
-    rw [trHeap_get]
-    have := H.live id hid
-    cases hg : h.get id with
-    | none => rw [hg] at this; cases this
-    | some o => rfl
+/-- the closure words of the positions after `load`: the remaining variables keep theirs, the loaded
+variables get those of the fields of the loaded object -/
+def loadCw (cw : Nat → Abs.Word) (n : Nat) (mw : Nat → Abs.Word) : Nat → Abs.Word :=
+  fun i => if i < n then cw i else mw (i - n)
 
 end Scc.RV.Ref
